@@ -286,10 +286,11 @@ def body_df(E, entry, n, nvars, base, t, j1, j2, j3, j4, shuf):
 
 
 # ------------------------------------------------------------- var_names=None (labelled results)
-def body_auto(E, kind, n1, n2, base):
+def body_auto(E, kind, n1, n2, base, vary=False):
     kind = concretize(kind, 0, 2)      # fn returns 0 Dataset, 1 DataArray, 2 dict
     n1 = concretize(n1, 1, 3)
     n2 = concretize(n2, 1, 2)
+    vary = cbool(vary) and kind != 2   # the internal coordinate's labels depend on the swept argument a
     with E() as env:
         if env.mode == "sym":
             XR = mx.MiniXRModule
@@ -300,26 +301,42 @@ def body_auto(E, kind, n1, n2, base):
 
             XR, arr = xarray, numpy.asarray
 
+        def wlabels(a):
+            return [w + (a - 10) for w in W] if vary else list(W)
+
         def fn(a, b):
             x = payload(base, a, b)
             if kind == 0:
-                return XR.Dataset(coords={"w": list(W)}, data_vars={"x": ((), x), "y": (("w",), arr([x + 1, x + 2]))})
+                return XR.Dataset(coords={"w": wlabels(a)}, data_vars={"x": ((), x), "y": (("w",), arr([x + 1, x + 2]))})
             if kind == 1:
-                return XR.Dataset(coords={"w": list(W)}, data_vars={"y": (("w",), arr([x + 1, x + 2]))})["y"]
+                return XR.Dataset(coords={"w": wlabels(a)}, data_vars={"y": (("w",), arr([x + 1, x + 2]))})["y"]
             return {"x": x, "y": (("w",), arr([x + 1, x + 2]))}
 
         combos = {"a": A[:n1], "b": B[:n2]}
         ds = cr.combo_runner_to_ds(fn, combos, var_names=None, verbosity=0)
+        allw = sorted(set(w for a in combos["a"] for w in wlabels(a)))
         for a in combos["a"]:
             for b in combos["b"]:
                 x = payload(base, a, b)
                 if kind != 1 and ds_value(env, ds, "x", {"a": a, "b": b}) != x:
                     return False
-                # a dict result carries no coordinate for 'w': positions label it
-                for wi, wv in enumerate(W if kind != 2 else [0, 1]):
-                    if ds_value(env, ds, "y", {"a": a, "b": b, "w": wv}) != x + 1 + wi:
+                if kind == 2:
+                    # a dict result carries no coordinate for 'w': positions label it
+                    for wi in (0, 1):
+                        if ds_value(env, ds, "y", {"a": a, "b": b, "w": wi}) != x + 1 + wi:
+                            return False
+                    continue
+                mine = wlabels(a)
+                for wv in allw:
+                    got = ds_value(env, ds, "y", {"a": a, "b": b, "w": wv})
+                    if wv in mine:
+                        if got != x + 1 + mine.index(wv):
+                            return False        # the value the function returned at exactly this label
+                    elif not is_missing(got):
                         return False
         if ds_coord(env, ds, "a") != combos["a"] or ds_coord(env, ds, "b") != combos["b"]:
+            return False
+        if kind != 2 and ds_coord(env, ds, "w") != allw:
             return False
         return ds_dims(env, ds, "y") == ("a", "b", "w")
 
@@ -362,9 +379,10 @@ CONDS = (
                   bounds="DataFrame form: 1-5 settings, 1-2 output columns, un-shuffled and every shuffle permutation; "
                          "each row must pair a setting with that setting's outputs; entry: 0 combo_runner_to_df "
                          "1 case_runner_to_df 2 Runner.run_combos(to_df) 3 Runner.run_cases(to_df)")
-    + [make_cond(_G, "auto", body_auto, "kind:int n1:int n2:int base:int",
+    + [make_cond(_G, "auto", body_auto, "kind:int n1:int n2:int base:int vary:bool",
                  ["0 <= kind <= 2 and 1 <= n1 <= 3 and 1 <= n2 <= 2"], timeout=300,
-                 bounds="var_names=None with the function returning a Dataset / DataArray / dict, grids up to 3x2")]
+                 bounds="var_names=None with the function returning a Dataset / DataArray / dict, grids up to 3x2; "
+                        "internal coordinate labels equal for all results or depending on a swept argument")]
 )
 
 ASSUMPTIONS = [
